@@ -15,7 +15,7 @@ PROP = dict(
                     "attempts once the reader got the space it asked for.  Exploration, not proof."),
         level_note=("trusts the sent/received log comparison in harness/c02_queue.c and c02_stream.c, delimiter counting as "
                     "frame-completeness test, gcc ASan+UBSan red zones; stalls are decided as bounded progress in receive attempts"),
-        legs=[dict(name="c02_queue", src=["c02_queue.c"], libs=["mptcore"], batch=64,
+        legs=[dict(name="c02_queue", memcheck=600, src=["c02_queue.c"], libs=["mptcore"], batch=64,
                    floors={"mpt_queue_push": 1000000, "mpt_queue_recv": 1000000, "mpt_message_get": 300000,
                            "mpt_queue_peek": 100000, "mpt_queue_shift": 100000,
                            "recv:message": 300000, "recv:MissingBuffer": 5000, "monitor:partial-prefix": 1000000,
